@@ -32,6 +32,7 @@ class ConvRef(Monitor):
         self.stalled_now_end = False
         self.last_end_t = None
         self.same_instant_entries = False
+        self.ever_spacing_bad = False   # some item entered less than one item length behind the previous one (KF6): overlapping items
         self.offgrid = False
         self.entered_stalled = set()   # items that entered while the head was waiting at the exit
         self.any_entered_stalled = False
@@ -87,6 +88,7 @@ class ConvRef(Monitor):
                     tk = w.toks[op[1]]
                     prev = next(y for y in w.items if y.n == last)
                     self.spacing_bad = (last, self.s[last], tk.grant_seq is not None and tk.grant_seq < prev.x.get("put_seq", -1))
+                    self.ever_spacing_bad = True
                     if self.s[last] < TOL:
                         self.same_instant_entries = True
             if self.head_waiting():
@@ -110,7 +112,8 @@ class ConvRef(Monitor):
                 fr = self.s[n] / self.tau
                 if abs(fr - round(fr)) > 1e-6:
                     self.between_slots = True
-                if abs((self.s[prev] - self.s[n]) - self.tau) > 1e-6:
+                if abs((self.s[prev] - self.s[n]) - self.tau) > 1e-6 or prev in self.not_touching:
+                    # not part of the closed-up chain behind the head: a gap right ahead, or behind an item that still has one
                     self.not_touching.add(n)
                 prev = n
         self._hw_prev = hw
@@ -125,7 +128,7 @@ class ConvRef(Monitor):
     def ref_state(self, w):
         return (tuple((w.items[n].obj, round(self.s[n], 6), n in self.entered_stalled) for n in self.order), self.ever_stalled, self.between_slots,
                 self.any_entered_stalled, tuple(w.items[n].obj for n in self.order if n in self.not_touching), self.stalled_prev_end,
-                self.stalled_now_end, self.same_instant_entries, self.offgrid)
+                self.stalled_now_end, self.same_instant_entries, self.offgrid, self.ever_spacing_bad)
 
     def facets(self, w, **kw):
         f = {"acc": self.acc, "conv": w.spec.kind}
@@ -191,8 +194,8 @@ class C13(ConvRef):
     def after(self, w, obs):
         out = []
         self.track(w, obs)
-        if self.same_instant_entries or self.spacing_bad is not None:
-            return out   # two items in one slot: C12's finding; the kinematic reference is undefined from here
+        if self.same_instant_entries or self.ever_spacing_bad:
+            return out   # two items in one slot / overlapping items: C12's finding (KF6); the kinematic reference is undefined from here on
         # no admission during a non-accumulating stall
         if not self.acc and self.stalled_prev_end and self.stalled_now_end:
             for g in obs["granted"]:
@@ -228,7 +231,7 @@ class C04Conv(ConvRef):
     def after(self, w, obs):
         out = []
         self.track(w, obs)
-        if self.same_instant_entries:
+        if self.same_instant_entries or self.ever_spacing_bad:
             return out
         if not events_now(w.env) and w.waiting("p") and self.can_admit(w):
             out.append(V("C04", "space-free-but-request-waiting", w,
